@@ -2,7 +2,7 @@
    alternatives with arbitrary white space around every alternative. *)
 From Coq Require Import String.
 From Coq Require Import Arith NArith List Bool Lia.
-From DI Require Import Result PyStr PyStrFacts Deps DepsGrammar DepsParseFacts.
+From DI Require Import Result PyStr PyStrFacts Deps DepsGrammar ParseFacts DepsParseFacts.
 Import ListNotations.
 Open Scope N_scope.
 
@@ -239,3 +239,160 @@ Proof.
   cbn [rel_names]. induction f as [|g f IH]; [reflexivity|]. cbn [map flat_map]. rewrite IH. f_equal. apply names_group.
 Qed.
 
+
+(* ---------- the string form of a whole field parses back to an equal object ---------- *)
+
+Lemma join_pad_gen (c : char) (pad : str) x ys : join (c :: pad) (x :: ys) = join [c] (x :: map (fun y => pad ++ y) ys).
+Proof.
+  revert x; induction ys as [|y ys IH]; intros x; [reflexivity|]. cbn [map]. rewrite !join_cons, IH.
+  f_equal. cbn [app]. f_equal. destruct (map (fun y0 => pad ++ y0) ys) as [|m M]; [reflexivity|].
+  rewrite !join_cons. now rewrite <- app_assoc.
+Qed.
+
+(* " | " between alternatives: a blank after every alternative but the last, one before every one but the first *)
+Fixpoint canon_alts (before : str) (g : list alt) : list ralt :=
+  match g with
+  | [] => []
+  | [a] => [mkRalt before (canonical_layout a) a []]
+  | a :: rest => mkRalt before (canonical_layout a) a [32] :: canon_alts [32] rest
+  end.
+
+Definition canon_text (g : list alt) : str := join (lit " | ") (map canonical_alt g).
+
+Lemma join_cons_ne sep x (l : list str) : l <> [] -> join sep (x :: l) = x ++ sep ++ join sep l.
+Proof. destruct l as [|y l]; [contradiction|]. intros _. apply join_cons. Qed.
+
+Lemma render_canon_alts g : forall before, g <> [] -> render_group (canon_alts before g) = before ++ canon_text g.
+Proof.
+  unfold render_group, canon_text. induction g as [|a g IH]; intros before Hne; [contradiction|]. destruct g as [|a2 g'].
+  - cbn [canon_alts map join]. unfold render_ralt, R. cbn [r_before r_layout r_alt r_after]. now rewrite <- canonical_is_render, app_nil_r.
+  - change (canon_alts before (a :: a2 :: g')) with (mkRalt before (canonical_layout a) a [32] :: canon_alts [32] (a2 :: g')).
+    cbn [map]. rewrite join_cons_ne by (destruct g'; discriminate). rewrite (IH [32] ltac:(discriminate)).
+    unfold render_ralt at 1, R. cbn [r_before r_layout r_alt r_after]. rewrite <- canonical_is_render.
+    change (map canonical_alt (a :: a2 :: g')) with (canonical_alt a :: map canonical_alt (a2 :: g')).
+    rewrite (join_cons_ne (lit " | ")) by discriminate.
+    change (lit " | ") with ([32] ++ [124] ++ [32]). now rewrite <- !app_assoc.
+Qed.
+
+Lemma canon_alts_wf g : forall before, ws before -> Forall wf_alt g -> Forall wf_ralt (canon_alts before g).
+Proof.
+  induction g as [|a g IH]; intros before Hb Hg; [constructor|]. inversion Hg as [|? ? Ha Hg']; subst. destruct g as [|a2 g'].
+  - constructor; [|constructor]. unfold wf_ralt. cbn [r_before r_after r_alt r_layout]. split; [exact Hb|split; [apply Forall_nil|split; [exact Ha|apply canonical_layout_wf]]].
+  - change (canon_alts before (a :: a2 :: g')) with (mkRalt before (canonical_layout a) a [32] :: canon_alts [32] (a2 :: g')).
+    constructor; [|apply IH; [repeat constructor|exact Hg']]. unfold wf_ralt. cbn [r_before r_after r_alt r_layout]. split; [exact Hb|split; [repeat constructor|split; [exact Ha|apply canonical_layout_wf]]].
+Qed.
+
+Lemma canon_alts_alts g : forall before, map r_alt (canon_alts before g) = g.
+Proof.
+  induction g as [|a g IH]; intros before; [reflexivity|]. destruct g as [|a2 g']; [reflexivity|].
+  change (canon_alts before (a :: a2 :: g')) with (mkRalt before (canonical_layout a) a [32] :: canon_alts [32] (a2 :: g')).
+  cbn [map r_alt]. now rewrite IH.
+Qed.
+
+Definition tree_alts (g : list alt) : rel :=
+  match g with [a] => tree_alt a | _ => OrRel (map tree_alt g) end.
+
+Lemma tree_group_canon g before : tree_group (canon_alts before g) = tree_alts g.
+Proof.
+  unfold tree_group, tree_alts. pose proof (canon_alts_alts g before) as E.
+  destruct g as [|a [|a2 g']]; [reflexivity|reflexivity|].
+  change (canon_alts before (a :: a2 :: g')) with (mkRalt before (canonical_layout a) a [32] :: canon_alts [32] (a2 :: g')) in *.
+  destruct (canon_alts [32] (a2 :: g')) as [|r rs] eqn:Ec; [destruct g'; discriminate|].
+  f_equal. rewrite <- E. rewrite map_map. reflexivity.
+Qed.
+
+Lemma rel_str_alts g : g <> [] -> rel_str (tree_alts g) = canon_text g.
+Proof.
+  intros Hne. unfold tree_alts, canon_text. destruct g as [|a [|a2 g']]; [contradiction| |].
+  - cbn [map join]. apply str_is_canonical.
+  - cbn [rel_str]. f_equal. rewrite map_map. apply map_ext. intros x. apply str_is_canonical.
+Qed.
+
+(* ", " between groups: a blank before every group but the first *)
+Definition canon_field (gs : list (list alt)) : list (list ralt) :=
+  match gs with
+  | [] => []
+  | g :: rest => canon_alts [] g :: map (canon_alts [32]) rest
+  end.
+
+Theorem field_str_roundtrip gs : Forall (fun g => g <> [] /\ Forall wf_alt g) gs ->
+  parse_depends (rel_str (AndRel (map tree_alts gs))) = Ok (AndRel (map tree_alts gs)).
+Proof.
+  intros Hg. destruct gs as [|g0 gs']; [reflexivity|].
+  assert (Estr : rel_str (AndRel (map tree_alts (g0 :: gs'))) = render_field (canon_field (g0 :: gs'))).
+  { cbn [rel_str]. rewrite map_map. unfold render_field, canon_field.
+    rewrite (map_ext_Forall _ canon_text) by (eapply Forall_impl; [|exact Hg]; intros g [Hne _]; now apply rel_str_alts).
+    inversion Hg as [|? ? [Hne0 _] Hrest]; subst. cbn [map].
+    change (lit ", ") with (44 :: [32]). rewrite join_pad_gen. f_equal. f_equal.
+    - now rewrite render_canon_alts.
+    - rewrite !map_map. apply map_ext_Forall. eapply Forall_impl; [|exact Hrest]. intros g [Hne _]. now rewrite render_canon_alts. }
+  rewrite Estr. rewrite parse_field.
+  - f_equal. f_equal. unfold canon_field. cbn [map]. rewrite tree_group_canon. f_equal. rewrite map_map. apply map_ext. intros g. apply tree_group_canon.
+  - unfold wf_field, canon_field. inversion Hg as [|? ? [Hne0 Hw0] Hrest]; subst. constructor.
+    + split; [destruct g0 as [|a [|a2 g']]; [contradiction|discriminate|discriminate]|apply canon_alts_wf; [constructor|exact Hw0]].
+    + rewrite Forall_map. eapply Forall_impl; [|exact Hrest]. intros g [Hne Hw]. split; [destruct g as [|a [|a2 g']]; [contradiction|discriminate|discriminate]|].
+      apply canon_alts_wf; [repeat constructor|exact Hw].
+Qed.
+
+(* ---------- a version clause with more than one operator raises ValueError ---------- *)
+
+Lemma split_ops_to_op pre c rest : no_op pre -> is_op_char c = true -> forall cur,
+  split_on_ops_aux cur [] false (pre ++ c :: rest) = (rev cur ++ pre) :: split_on_ops_aux [] [c] true rest.
+Proof.
+  intros Hp Hc. induction Hp as [|x pre Hx _ IH]; intros cur; cbn [app split_on_ops_aux].
+  - rewrite Hc. now rewrite app_nil_r.
+  - rewrite Hx. rewrite IH. cbn [rev]. now rewrite <- app_assoc.
+Qed.
+
+Lemma split_ops_from_op o d rest : all_op o -> is_op_char d = false -> forall ops,
+  split_on_ops_aux [] ops true (o ++ d :: rest) = (rev ops ++ o) :: split_on_ops_aux [d] [] false rest.
+Proof.
+  intros Ho Hd. induction Ho as [|c o Hc _ IH]; intros ops; cbn [app split_on_ops_aux].
+  - rewrite Hd. now rewrite app_nil_r.
+  - rewrite Hc. rewrite IH. cbn [rev]. now rewrite <- app_assoc.
+Qed.
+
+Lemma nbs5 (a b c d e : str) : all_space a = true -> all_space b = false -> all_space c = false -> all_space d = false ->
+  all_space e = false -> nonblank_stripped [a; b; c; d; e] = [strip b; strip c; strip d; strip e].
+Proof. intros Ha Hb Hc Hd He. unfold nonblank_stripped. cbn [filter]. rewrite Ha, Hb, Hc, Hd, He. reflexivity. Qed.
+
+Theorem bad_clause_two_operators n o1 x1 o2 x2 : wf_name n -> wf_op o1 -> wf_version x1 -> wf_op o2 -> wf_version x2 ->
+  parse_relationship (n ++ lit " (" ++ (o1 ++ [32] ++ x1 ++ [32] ++ o2 ++ [32] ++ x2) ++ [41]) = Raise ValueError.
+Proof.
+  intros Hn Ho1 Hx1 Ho2 Hx2. unfold parse_relationship, rel_expr_match.
+  pose proof (name_char_facts _ Hn) as Hnc. destruct (token_facts _ _ Hn) as (Nne & _ & _).
+  destruct (wf_op_facts o1 Ho1) as (O1ne & O1all & O1ns & O141). destruct (wf_op_facts o2 Ho2) as (O2ne & O2all & O2ns & O241).
+  destruct (token_facts _ _ Hx1) as (X1ne & X1ns & _). destruct (version_no_op x1 Hx1) as [X1no X141].
+  destruct (token_facts _ _ Hx2) as (X2ne & X2ns & _). destruct (version_no_op x2 Hx2) as [X2no X241].
+  set (g := o1 ++ [32] ++ x1 ++ [32] ++ o2 ++ [32] ++ x2).
+  destruct (take_drop_app name_char n (lit " (" ++ g ++ [41]) Hnc) as [Et Ed]; [reflexivity|].
+  rewrite Et, Ed. destruct n as [|c0 n0] eqn:En; [contradiction|]. rewrite <- En in *.
+  change (lit " (" ++ g ++ [41]) with ([32] ++ 40 :: g ++ 41 :: []).
+  assert (Hg41 : ~ In 41 g).
+  { subst g. repeat (apply no_char_app; try assumption); intros [E|[]]; discriminate. }
+  assert (Hgne : g <> []) by (subst g; destruct o1; [contradiction|discriminate]).
+  rewrite drop_ws by (repeat constructor). rewrite bracket_group_ok; [|discriminate|exact Hgne|exact Hg41].
+  cbn [drop_while bracket_group].
+  (* the tokens *)
+  assert (Etok : nonblank_stripped (split_on_ops g) = [o1; x1; o2; x2]).
+  { unfold split_on_ops. subst g. destruct o1 as [|c1 o1']; [contradiction|]. inversion O1all as [|? ? Hc1 Ho1']; subst.
+    change ((c1 :: o1') ++ [32] ++ x1 ++ [32] ++ o2 ++ [32] ++ x2) with ([] ++ c1 :: (o1' ++ 32 :: (x1 ++ [32] ++ o2 ++ [32] ++ x2))).
+    rewrite (split_ops_to_op [] c1 _ (Forall_nil _) Hc1 []). rewrite (split_ops_from_op o1' 32 _ Ho1' eq_refl [c1]).
+    destruct o2 as [|c2 o2']; [contradiction|]. inversion O2all as [|? ? Hc2 Ho2']; subst.
+    replace (x1 ++ [32] ++ (c2 :: o2') ++ [32] ++ x2) with ((x1 ++ [32]) ++ c2 :: (o2' ++ [32] ++ x2)) by (now rewrite <- app_assoc).
+    assert (Hmid : no_op (x1 ++ [32])) by (apply no_op_app; [exact X1no|repeat constructor]).
+    rewrite (split_ops_to_op (x1 ++ [32]) c2 _ Hmid Hc2 [32]).
+    rewrite (split_ops_op o2' Ho2' [c2] ([32] ++ x2)); [|apply no_op_app; [repeat constructor|exact X2no]|discriminate].
+    cbn [rev app].
+    assert (B1 : all_space (c1 :: o1') = false) by (apply not_all_space_nospace; [exact O1ns|discriminate]).
+    assert (B2 : all_space ([32] ++ x1 ++ [32]) = false) by now apply all_space_app_false.
+    assert (B3 : all_space (c2 :: o2') = false) by (apply not_all_space_nospace; [exact O2ns|discriminate]).
+    assert (B4 : all_space ([32] ++ x2) = false).
+    { replace ([32] ++ x2) with ([32] ++ x2 ++ []) by now rewrite app_nil_r. now apply all_space_app_false. }
+    etransitivity; [apply (nbs5 [] (c1 :: o1') ([32] ++ x1 ++ [32]) (c2 :: o2') ([32] ++ x2) eq_refl B1 B2 B3 B4)|].
+    f_equal; [now apply nospace_strip|]. f_equal.
+    - destruct (nospace_ends x1 X1ns X1ne) as [Hh Hl]. apply strip_pad; try assumption; repeat constructor.
+    - f_equal; [now apply nospace_strip|]. f_equal. replace ([32] ++ x2) with ([32] ++ x2 ++ []) by now rewrite app_nil_r.
+      destruct (nospace_ends x2 X2ns X2ne) as [Hh Hl]. apply strip_pad; try assumption; repeat constructor. }
+  rewrite Etok. reflexivity.
+Qed.
